@@ -601,6 +601,21 @@ class Lower:
         return 'sizeof(%s)' % self.types.ctype(n['argType']['qualType'])
 
     def ex_InitListExpr(self, n):
+        # all-zero aggregate initialiser of an opaque library struct (LZMA_STREAM_INIT): a zero compound literal
+        cls, t = self.types.classify(qt(n))
+        def zero(x):
+            x = strip(x)
+            while x.get('kind') in ('ImplicitCastExpr', 'CStyleCastExpr', 'ParenExpr', 'CXXStaticCastExpr') and kids(x):
+                x = strip(kids(x)[0])
+            if x.get('kind') in ('IntegerLiteral',):
+                return str(x.get('value')) == '0'
+            if x.get('kind') in ('GNUNullExpr', 'CXXNullPtrLiteralExpr', 'ImplicitValueInitExpr'):
+                return True
+            if x.get('kind') == 'DeclRefExpr' and x.get('referencedDecl', {}).get('kind') == 'EnumConstantDecl':
+                return x['referencedDecl'].get('name') == 'LZMA_RESERVED_ENUM'      # liblzma: LZMA_RESERVED_ENUM = 0 (lzma/base.h)
+            return False
+        if cls == 'handle' and t.name in self.types.opaque and all(zero(k) for k in kids(n)):
+            return '(%s){0}' % self.types.ctype(t)
         raise LowerError("InitListExpr in expression position")
 
     def ex_CXXDefaultArgExpr(self, n):
@@ -994,6 +1009,8 @@ class Lower:
             if name == 'operator=':
                 return 'uptr_assign(%s, %s)' % (self.addr(self.ex(a0)), self.ex(args[1]))
             raise LowerError("unique_ptr " + name)
+        if cls == 'handle' and name == 'operator=' and t.name in ('lzma_stream', 'z_stream', 'z_stream_s'):
+            return '%s = %s' % (self.ex(a0), self.ex(args[1]))        # implicit copy assignment of a C struct (lzma_stream)
         if cls == 'handle':
             # iterators and other opaque library values
             hn = re.sub(r'[^A-Za-z0-9]', '_', self.types.ctype(t).replace('struct ', '').replace(' *', '_p'))
